@@ -221,4 +221,144 @@ theorem rec_sim1 (F index r : Nat) (stack : List Nat) (k : RecSt OSt) (hP : Pre 
   · simp [evalP, mStep]
 end Base
 
+
+theorem noOob_split (a : BEv) (e1 e2 : List BEv) (h : noOob (a :: e1 ++ e2)) : noOob e1 ∧ noOob e2 := by
+  constructor
+  · intro e he; exact h e (by simp [he])
+  · intro e he; exact h e (by simp [he])
+
+section Main
+variable (oracle : Nat → Bool) (fuel cap total : Nat)
+
+/-- **the translated balanced recursion refines the hand model `rec`** -/
+theorem rec_sim (hcf : cap ≤ fuel) : ∀ (F len index r : Nat) (stack : List Nat) (k : RecSt OSt),
+    len ≤ F → index + len ≤ total → stack.length ≤ cap → Pre k cap total r stack →
+    noOob (rec cap total (F + 1) len index r stack).1 →
+    Post (theta_chain_comput_rec obs [] oracle fuel (F + 1) (len : Int) index 0 stack.length total 0 0 0 0 k) k cap total
+      (rec cap total (F + 1) len index r stack).2 (rec cap total (F + 1) len index r stack).1 := by
+  intro F
+  induction F with
+  | zero =>
+    intro len index r stack k hl _ _ hP _
+    have : len = 0 := by omega
+    subst this
+    exact rec_sim0 oracle fuel cap total 0 index r stack k hP
+  | succ F ih =>
+    intro len index r stack k hl hit hsc hP hno
+    by_cases h0 : len = 0
+    · subst h0; exact rec_sim0 oracle fuel cap total (F + 1) index r stack k hP
+    by_cases h1 : len = 1
+    · subst h1; exact rec_sim1 oracle fuel cap total (F + 1) index r stack k hP (by omega) (by omega) hsc
+    -- the recursive case
+    have hrl : 2 * len / 3 < len := by omega
+    have hr1 : 1 ≤ 2 * len / 3 := by omega
+    by_cases hc' : ¬ stack.length < cap
+    · exfalso
+      have hoob : (rec cap total (F + 1 + 1) len index r stack).1 = [.oob stack.length cap] := by
+        simp [rec, h0, h1, hc']
+      rw [hoob] at hno
+      exact hno (.oob stack.length cap) (List.mem_singleton.2 rfl) stack.length cap rfl
+    have hc : stack.length < cap := Classical.not_not.mp hc'
+    -- hand side
+    have hrec : rec cap total (F + 1 + 1) len index r stack =
+        (.split stack.length (len - 2 * len / 3) (2 * len / 3) ::
+          (rec cap total (F + 1) (2 * len / 3) index (r - (len - 2 * len / 3)) (stack ++ [r])).1 ++
+          (rec cap total (F + 1) (len - 2 * len / 3) (2 * len / 3 + index)
+            ((rec cap total (F + 1) (2 * len / 3) index (r - (len - 2 * len / 3)) (stack ++ [r])).2.getD stack.length 0)
+            ((rec cap total (F + 1) (2 * len / 3) index (r - (len - 2 * len / 3)) (stack ++ [r])).2.take stack.length)).1,
+         (rec cap total (F + 1) (len - 2 * len / 3) (2 * len / 3 + index)
+            ((rec cap total (F + 1) (2 * len / 3) index (r - (len - 2 * len / 3)) (stack ++ [r])).2.getD stack.length 0)
+            ((rec cap total (F + 1) (2 * len / 3) index (r - (len - 2 * len / 3)) (stack ++ [r])).2.take stack.length)).2) := by
+      simp [rec, h0, h1, hc]
+    rw [hrec] at hno ⊢
+    obtain ⟨hno1, hno2⟩ := noOob_split _ _ _ hno
+    generalize hm1 : rec cap total (F + 1) (2 * len / 3) index (r - (len - 2 * len / 3)) (stack ++ [r]) = m1 at hno1 hno2 ⊢
+    have hlen1 : m1.2.length = stack.length + 1 := by
+      rw [← hm1, rec_length]; simp
+    -- skeleton side
+    have er : 2 * (len : Int) / 3 = ((2 * len / 3 : Nat) : Int) := by omega
+    have el : (len : Int) - ((2 * len / 3 : Nat) : Int) = ((len - 2 * len / 3 : Nat) : Int) := by omega
+    rw [theta_chain_comput_rec]
+    dsimp only
+    rw [step_live _ k hP.kf hP.kb]
+    rw [if_neg (by simp; omega)]
+    rw [step_live _ k hP.kf hP.kb]
+    rw [if_neg (by simp; omega)]
+    simp only [er, el, Int.mul_zero, Int.add_zero, Int.zero_add]
+    generalize hX : RecSt.step obs _ (RecSt.step obs _ (RecSt.step obs _ (RecSt.step obs _ k))) = X
+    have hs0 : (0 : Int) ≤ (stack.length : Int) := by omega
+    have hs1 : (stack.length : Int) < (cap : Int) := by omega
+    have hl0 : (0 : Int) ≤ ((len - 2 * len / 3 : Nat) : Int) := by omega
+    have hXe : X = { k with obs := { k.obs with
+        r1 := fun x => if x = 0 then some (r - (len - 2 * len / 3)) else k.obs.r1 x,
+        r2 := fun x => if x = 0 then some (r - (len - 2 * len / 3)) else k.obs.r2 x,
+        p1 := fun x => if x = (stack.length : Int) then some r else k.obs.p1 x,
+        p2 := fun x => if x = (stack.length : Int) then some r else k.obs.p2 x } } := by
+      rw [← hX]
+      simp [RecSt.step, RecSt.live, obs, ev, OSt.inb, OSt.size, OSt.get, OSt.put, OSt.fail, EvKind.copyA, EvKind.dblIter,
+        hP.kf, hP.kb, hP.rs, hP.cp, hP.r1, hP.r2, hs0, hs1, hl0]
+    clear hX
+    have hPre1 : Pre X cap total (r - (len - 2 * len / 3)) (stack ++ [r]) := by
+      rw [hXe]
+      refine ⟨hP.kf, hP.kb, by simp, by simp, hP.rs, hP.cp, hP.tt, ?_, ?_⟩
+      · intro i hi
+        simp only [List.length_append, List.length_singleton] at hi
+        by_cases hil : i < stack.length
+        · have hne : ¬ (i : Int) = (stack.length : Int) := by omega
+          simp [hne, hP.p1 i hil, List.getElem_append_left hil]
+        · have hie : i = stack.length := by omega
+          subst hie; simp
+      · intro i hi
+        simp only [List.length_append, List.length_singleton] at hi
+        by_cases hil : i < stack.length
+        · have hne : ¬ (i : Int) = (stack.length : Int) := by omega
+          simp [hne, hP.p2 i hil, List.getElem_append_left hil]
+        · have hie : i = stack.length := by omega
+          subst hie; simp
+    have hXs : X.obs.steps = k.obs.steps := by rw [hXe]
+    rw [step_live _ X hPre1.kf hPre1.kb]
+    have P1 := ih (2 * len / 3) index (r - (len - 2 * len / 3)) (stack ++ [r]) X (by omega) (by omega)
+      (by simp; omega) hPre1 (by rw [hm1]; exact hno1)
+    have es : (((stack ++ [r]).length : Nat) : Int) = (stack.length : Int) + 1 := by simp
+    rw [es, hm1] at P1
+    generalize hK2 : theta_chain_comput_rec obs [] oracle fuel (F + 1) _ _ 0 _ _ 0 0 0 0 X = K2 at P1 ⊢
+    clear hK2
+    have hp1s := P1.p1 stack.length (by omega)
+    have hp2s := P1.p2 stack.length (by omega)
+    have hr' : m1.2.getD stack.length 0 = m1.2[stack.length]'(by omega) := by
+      simp [List.getD, List.getElem?_eq_getElem (show stack.length < m1.2.length by omega)]
+    generalize hK3 : RecSt.step obs _ (RecSt.step obs _ K2) = K3
+    have hK3e : K3 = { K2 with obs := { K2.obs with
+        r1 := fun x => if x = 0 then some (m1.2[stack.length]'(by omega)) else K2.obs.r1 x,
+        r2 := fun x => if x = 0 then some (m1.2[stack.length]'(by omega)) else K2.obs.r2 x } } := by
+      rw [← hK3]
+      simp [RecSt.step, RecSt.live, obs, ev, OSt.inb, OSt.size, OSt.get, OSt.put, OSt.fail, EvKind.copyA,
+        P1.kf, P1.kb, P1.rs, P1.cp, hp1s, hp2s, hs0, hs1]
+    clear hK3
+    have htl : (m1.2.take stack.length).length = stack.length := by simp [List.length_take]; omega
+    have hPre2 : Pre K3 cap total (m1.2.getD stack.length 0) (m1.2.take stack.length) := by
+      rw [hK3e, hr']
+      refine ⟨P1.kf, P1.kb, by simp, by simp, P1.rs, P1.cp, P1.tt, ?_, ?_⟩
+      · intro i hi
+        have hil : i < stack.length := by omega
+        simp only []
+        rw [P1.p1 i (by omega)]
+        simp [List.getElem_take]
+      · intro i hi
+        have hil : i < stack.length := by omega
+        simp only []
+        rw [P1.p2 i (by omega)]
+        simp [List.getElem_take]
+    have hK3s : K3.obs.steps = K2.obs.steps := by rw [hK3e]
+    rw [step_live _ K3 hPre2.kf hPre2.kb]
+    have P2 := ih (len - 2 * len / 3) (2 * len / 3 + index) (m1.2.getD stack.length 0) (m1.2.take stack.length) K3
+      (by omega) (by omega) (by omega) hPre2 hno2
+    have e3 : (((m1.2.take stack.length).length : Nat) : Int) = (stack.length : Int) := by rw [htl]
+    have e4 : ((2 * len / 3 + index : Nat) : Int) = ((2 * len / 3 : Nat) : Int) + (index : Int) := by push_cast; rfl
+    rw [e3, e4] at P2
+    refine ⟨P2.kf, P2.kb, P2.rs, P2.cp, P2.tt, P2.p1, P2.p2, ?_⟩
+    rw [P2.sp, hK3s, P1.sp, hXs]
+    simp [mStep, List.flatMap_append, List.append_assoc]
+end Main
+
 end SqiProofs.SkelRecSim
